@@ -22,20 +22,23 @@
       factory (`hf`; any of the `src_*_factory` ties provides it) and `(name, sec) ∈ mixinBases`; it returns
       `embDK (cfg1, r)` = `(popped config, class, mixin flag)`.
     * `SrcC15.create_profile …` for a base class of `genericBases` ∩ `mixinBases`.
+    * `SrcC15.create_star / create_planet / create_optimizer / create_observation / create_instrument …`: the `TypeError` of
+      `klass(**config)` is raised by Python's argument binding, which in the tie is the world's `w.call`.  It is modelled
+      by the hypothesis `CallBinds w`: where the model's `Factory.instantiate` (`bindArgs` over the signature columns
+      `args` / `required` / `varkw` of the REGENERATED `Gen/Registry.lean`) fails, the call raises that exception class.
+      `unknown_key_error_lenient` and `lenient_sections_bind_strictly` are restated under it.
 
   Not restated (no tie)
-    * `unknown_key_error_lenient`, `lenient_sections_bind_strictly`: the `TypeError` of `klass(**config)` is raised by
-      Python's argument binding (`Factory.bindArgs` / `instantiate`), which in the tie is the world's `w.call` (arbitrary);
-      what the regenerated lenient creators do — pass EVERY remaining key of the section to the constructor — is the tie
-      itself (`src_create_star`, …).
     * the first conjunct of `mixin_split` (`joinWith` / `splitOnC`: string functions of the model; `str.split` is a
       primitive of the dialect); the `determine_klass` conjunct is restated.
     * `registry_disjoint`, `documented_resolve_partial`, `twopoint_unresolved`, `plugin_selectors_pinned`,
       `documented_keys_accepted`: statements about the tables `Gen/Registry.lean` / `Gen/Docs.lean` (themselves
       regenerated from /repo on every run), no function of the code in them.  `documented_selector_builds` IS restated
       (through the regenerated `determine_klass`, in the world whose registry is the regenerated table).
-    * the ties of `create_prior`, `generate_contributions`, `create_model`, the lenient creators and
-      `determine_mixin_args` have no theorem of `Props/C15.lean` about their model functions.
+    * the ties of `create_prior`, `generate_contributions`, `create_model`, `create_chemistry`, `create_snr`,
+      `ParameterParser.generate_*` and `determine_mixin_args` have no theorem of `Props/C15.lean` about their model
+      functions; `create_model` (also a `klass(**kwargs)` section) is not covered by `unknown_key_error_lenient`, which is
+      about `Factory.createLenient`.
 -/
 import Props.C15
 import Props.C15Src
@@ -278,5 +281,246 @@ theorem src_unknown_key_error_strict (w : World) (hw : WorldOK w) (name sec fiel
   refine src_unknown_key_error_strict_resolved w hw name sec field cfg f hc h1 h2 cfg1 (.plain k) kv hr hm ?_
   show Factory.hasKey (Factory.dictOfPairs k.kwargs) kv.1 = false
   rw [dictOfPairs_nodup _ hkn]; exact hk
+
+/-! ## `klass(**config)` sections: an unknown key is a `TypeError` -/
+
+/-- the world's constructor call binds its keyword arguments as Python does: where `Factory.instantiate` (`bindArgs` over
+    the regenerated signature columns `args` / `required` / `varkw` of `Gen/Registry.lean`) fails, the call raises that
+    exception class -/
+def CallBinds (w : World) : Prop :=
+  ∀ r kw e, Factory.instantiate r kw = .error e → w.call (robjO r) [] (embKw kw) = .error (errExc e)
+
+/-- the lenient creators up to the constructor call (`lenientV`): an unknown key of a plain class without `**kwargs` is a
+    `TypeError` in every world whose constructor calls bind as Python does -/
+theorem lenientV_unknown_key (w : World) (hb : CallBinds w) (sec field : String) (cfg cfg1 : Config) (k : Klass)
+    (kv : String × Value) (hr : Factory.determineKlass (w.reg.sec sec) w.customs sec field cfg = .ok (cfg1, .plain k))
+    (hv : k.varkw = false) (hm : kv ∈ cfg1) (hk : k.args.contains kv.1 = false) :
+    lenientV w sec field cfg = .error .TypeError := by
+  obtain ⟨key, hkey⟩ := unknown_key_error_lenient (w.reg.sec sec) w.customs sec field cfg cfg1 k kv hr hv hm hk
+  have hi : Factory.instantiate (.plain k) cfg1 = .error (.typeError key) := by
+    simpa [Factory.createLenient, hr, bind, Except.bind] using hkey
+  simp only [lenientV, hr]
+  exact hb _ _ _ hi
+
+section lenient
+variable (w : World) (hw : WorldOK w) (hb : CallBinds w) (cfg cfg1 : Config) (k : Klass) (kv : String × Value)
+  (hv : k.varkw = false) (hm : kv ∈ cfg1) (hk : k.args.contains kv.1 = false)
+include hw hb hv hm hk
+
+/-- **unknown_key_error_lenient**, about the regenerated `create_star` -/
+theorem src_unknown_key_error_star
+    (hr : Factory.determineKlass (w.reg.sec "star") w.customs "star" "star_type" cfg = .ok (cfg1, .plain k)) :
+    SrcC15.create_star w.ext (.dict (embCfg cfg)) = .error .TypeError := by
+  rw [src_create_star_split w hw, lenientV_unknown_key w hb _ _ cfg cfg1 k kv hr hv hm hk]; rfl
+
+/-- **unknown_key_error_lenient**, about the regenerated `create_optimizer` -/
+theorem src_unknown_key_error_optimizer
+    (hr : Factory.determineKlass (w.reg.sec "optimizer") w.customs "optimizer" "optimizer" cfg = .ok (cfg1, .plain k)) :
+    SrcC15.create_optimizer w.ext (.dict (embCfg cfg)) = .error .TypeError := by
+  rw [src_create_optimizer_split w hw, lenientV_unknown_key w hb _ _ cfg cfg1 k kv hr hv hm hk]; rfl
+
+/-- **unknown_key_error_lenient**, about the regenerated `create_observation` -/
+theorem src_unknown_key_error_observation
+    (hr : Factory.determineKlass (w.reg.sec "observation") w.customs "observation" "observation" cfg
+      = .ok (cfg1, .plain k)) :
+    SrcC15.create_observation w.ext (.dict (embCfg cfg)) = .error .TypeError := by
+  rw [src_create_observation_split w hw, lenientV_unknown_key w hb _ _ cfg cfg1 k kv hr hv hm hk]; rfl
+
+/-- **unknown_key_error_lenient**, about the regenerated `create_instrument` -/
+theorem src_unknown_key_error_instrument
+    (hr : Factory.determineKlass (w.reg.sec "instrument") w.customs "instrument" "instrument" cfg
+      = .ok (cfg1, .plain k)) :
+    SrcC15.create_instrument w.ext (.dict (embCfg cfg)) = .error .TypeError := by
+  rw [src_create_instrument_split w hw, lenientV_unknown_key w hb _ _ cfg cfg1 k kv hr hv hm hk]; rfl
+
+/-- **unknown_key_error_lenient**, about the regenerated `create_planet` (`planet_type` defaulted to `simple`) -/
+theorem src_unknown_key_error_planet (hc : KeysNodup cfg)
+    (hr : Factory.determineKlass (w.reg.sec "planet") w.customs "planet" "planet_type" (planetCfg cfg)
+      = .ok (cfg1, .plain k)) :
+    SrcC15.create_planet w.ext (.dict (embCfg cfg)) = .error .TypeError := by
+  rw [src_create_planet_split w hw cfg hc, lenientV_unknown_key w hb _ _ (planetCfg cfg) cfg1 k kv hr hv hm hk]; rfl
+
+end lenient
+
+/-- a section without mixins never resolves to a composite class -/
+theorem determineKlass_plain_of_no_mixins (sr : SectionReg) (customs : Customs) (sec field : String) (cfg cfg1 : Config)
+    (r : Resolved) (hmix : sr.mixins = []) (h : Factory.determineKlass sr customs sec field cfg = .ok (cfg1, r)) :
+    ∃ k, r = .plain k := by
+  unfold Factory.determineKlass at h
+  cases hp : Factory.popKey cfg field with
+  | none => simp [hp] at h
+  | some p =>
+    obtain ⟨v, c1⟩ := p
+    simp only [hp] at h
+    cases v with
+    | scalar s =>
+      cases s with
+      | str sel =>
+        simp only at h
+        split at h
+        · cases hp2 : Factory.popKey c1 "python_file" with
+          | none => simp [hp2] at h
+          | some p2 =>
+            obtain ⟨v2, c2⟩ := p2
+            simp only [hp2] at h
+            cases v2 with
+            | scalar s2 =>
+              cases s2 with
+              | str file =>
+                simp only at h
+                cases hcu : customs.lookup file with
+                | none => simp [hcu] at h
+                | some members =>
+                  simp only [hcu] at h
+                  cases hd : Factory.detectKlass members sec with
+                  | error e => simp [hd, Except.map] at h
+                  | ok k => simp [hd, Except.map] at h; exact ⟨k, h.2.symm⟩
+              | _ => simp at h
+            | _ => simp at h
+        · split at h
+          · rename_i one _
+            cases hf : Factory.factory sr one with
+            | error e => simp [hf, Except.map] at h
+            | ok k => simp [hf, Except.map] at h; exact ⟨k, h.2.symm⟩
+          · rename_i hne
+            exfalso
+            cases hf : Factory.factory sr (Factory.lastOf (Factory.splitPlus (Factory.lower sel))) with
+            | error e => simp [hf, bind, Except.bind] at h
+            | ok b =>
+              cases hparts : Factory.splitPlus (Factory.lower sel) with
+              | nil =>
+                simp only [Factory.splitPlus, List.map_eq_nil_iff] at hparts
+                exact C15Src.splitOnC_ne_nil _ _ hparts
+              | cons a t =>
+                cases t with
+                | nil => exact hne a hparts
+                | cons b' t' =>
+                  have : (Factory.initOf (a :: b' :: t')).mapM (Factory.mixinFactory sr)
+                      = .error (.notImplemented a) := by
+                    simp only [Factory.initOf, List.mapM_cons, Factory.mixinFactory, hmix, Factory.lookup, List.find?_nil]
+                    rfl
+                  rw [hparts] at hf
+                  simp [hf, hparts, this, bind, Except.bind] at h
+      | _ => simp at h
+    | _ => simp at h
+
+/-- without custom files a plain class comes from the section's class list -/
+theorem determineKlass_plain_mem (sr : SectionReg) (sec field : String) (cfg cfg1 : Config) (k : Klass)
+    (h : Factory.determineKlass sr [] sec field cfg = .ok (cfg1, .plain k)) : k ∈ sr.classes := by
+  unfold Factory.determineKlass at h
+  cases hp : Factory.popKey cfg field with
+  | none => simp [hp] at h
+  | some p =>
+    obtain ⟨v, c1⟩ := p
+    simp only [hp] at h
+    cases v with
+    | scalar s =>
+      cases s with
+      | str sel =>
+        simp only at h
+        split at h
+        · cases hp2 : Factory.popKey c1 "python_file" with
+          | none => simp [hp2] at h
+          | some p2 =>
+            obtain ⟨v2, c2⟩ := p2
+            simp only [hp2] at h
+            cases v2 with
+            | scalar s2 => cases s2 <;> simp at h
+            | _ => simp at h
+        · split at h
+          · rename_i one _
+            cases hf : Factory.factory sr one with
+            | error e => simp [hf, Except.map] at h
+            | ok k' =>
+              simp [hf, Except.map] at h
+              have hk : k' = k := h.2
+              subst hk
+              unfold Factory.factory at hf
+              cases hl : Factory.lookup sr.classes one with
+              | none => simp [hl] at hf
+              | some k'' =>
+                simp [hl] at hf
+                subst hf
+                exact List.mem_of_find?_eq_some hl
+          · cases hf : Factory.factory sr (Factory.lastOf (Factory.splitPlus (Factory.lower sel))) with
+            | error e => simp [hf, bind, Except.bind] at h
+            | ok b =>
+              cases hm : (Factory.initOf (Factory.splitPlus (Factory.lower sel))).mapM (Factory.mixinFactory sr) with
+              | error e => simp [hf, hm, bind, Except.bind] at h
+              | ok ms =>
+                simp only [hf, hm, bind, Except.bind] at h
+                split at h
+                · simp [throw, throwThe, MonadExceptOf.throw] at h
+                · simp [pure, Except.pure] at h
+      | _ => simp at h
+    | _ => simp at h
+
+/-- **lenient_sections_bind_strictly** composed with **unknown_key_error_lenient**, about the regenerated creators, in the
+    world whose class registry is the regenerated table (no custom files) and whose constructor calls bind as Python does:
+    in the sections built by `klass(**config)` no class swallows unknown keys and no selector resolves to a composite
+    class, so EVERY key left in the section that is not a parameter of the resolved class makes the creator raise
+    `TypeError` -/
+theorem lenientV_strict (w : World) (hreg : w.reg = Registry.registry) (hcus : w.customs = []) (hb : CallBinds w)
+    (s : String) (hs : s ∈ lenientSections) (field : String) (cfg cfg1 : Config) (r : Resolved) (kv : String × Value)
+    (hr : Factory.determineKlass (w.reg.sec s) w.customs s field cfg = .ok (cfg1, r)) (hm : kv ∈ cfg1)
+    (hk : ∀ k, r = .plain k → k.args.contains kv.1 = false) :
+    lenientV w s field cfg = .error .TypeError := by
+  obtain ⟨hmix, hvar⟩ := lenient_sections_bind_strictly s hs
+  have hr' := hr
+  rw [hreg, hcus] at hr'
+  obtain ⟨k, rfl⟩ := determineKlass_plain_of_no_mixins _ _ _ _ _ _ _ hmix hr'
+  have hmem := determineKlass_plain_mem _ _ _ _ _ _ hr'
+  exact lenientV_unknown_key w hb s field cfg cfg1 k kv hr (hvar k hmem) hm (hk k rfl)
+
+theorem src_lenient_sections_bind_strictly (w : World) (hw : WorldOK w) (hreg : w.reg = Registry.registry)
+    (hcus : w.customs = []) (hb : CallBinds w) (cfg cfg1 : Config) (r : Resolved) (kv : String × Value) (hm : kv ∈ cfg1)
+    (hk : ∀ k, r = .plain k → k.args.contains kv.1 = false) :
+    (Factory.determineKlass (w.reg.sec "star") w.customs "star" "star_type" cfg = .ok (cfg1, r) →
+      SrcC15.create_star w.ext (.dict (embCfg cfg)) = .error .TypeError) ∧
+    (Factory.determineKlass (w.reg.sec "optimizer") w.customs "optimizer" "optimizer" cfg = .ok (cfg1, r) →
+      SrcC15.create_optimizer w.ext (.dict (embCfg cfg)) = .error .TypeError) ∧
+    (Factory.determineKlass (w.reg.sec "observation") w.customs "observation" "observation" cfg = .ok (cfg1, r) →
+      SrcC15.create_observation w.ext (.dict (embCfg cfg)) = .error .TypeError) ∧
+    (Factory.determineKlass (w.reg.sec "instrument") w.customs "instrument" "instrument" cfg = .ok (cfg1, r) →
+      SrcC15.create_instrument w.ext (.dict (embCfg cfg)) = .error .TypeError) ∧
+    (KeysNodup cfg →
+      Factory.determineKlass (w.reg.sec "planet") w.customs "planet" "planet_type" (planetCfg cfg) = .ok (cfg1, r) →
+      SrcC15.create_planet w.ext (.dict (embCfg cfg)) = .error .TypeError) := by
+  refine ⟨fun hr => ?_, fun hr => ?_, fun hr => ?_, fun hr => ?_, fun hc hr => ?_⟩
+  · rw [src_create_star_split w hw, lenientV_strict w hreg hcus hb "star" (by decide) _ cfg cfg1 r kv hr hm hk]; rfl
+  · rw [src_create_optimizer_split w hw, lenientV_strict w hreg hcus hb "optimizer" (by decide) _ cfg cfg1 r kv hr hm hk]; rfl
+  · rw [src_create_observation_split w hw, lenientV_strict w hreg hcus hb "observation" (by decide) _ cfg cfg1 r kv hr hm hk]
+    rfl
+  · rw [src_create_instrument_split w hw, lenientV_strict w hreg hcus hb "instrument" (by decide) _ cfg cfg1 r kv hr hm hk]
+    rfl
+  · rw [src_create_planet_split w hw cfg hc,
+      lenientV_strict w hreg hcus hb "planet" (by decide) _ (planetCfg cfg) cfg1 r kv hr hm hk]
+    rfl
+
+-- non-vacuity: a world whose registry is the regenerated table and whose constructor calls bind as Python does
+example : ∃ w : World, WorldOK w ∧ w.reg = Registry.registry ∧ w.customs = [] ∧ CallBinds w := by
+  refine ⟨{ reg := Registry.registry, customs := [], kwErr := fun _ => none, argsPre := fun _ => [],
+            varargs := fun _ => .none, varkw := fun _ => .none, call := fun _ _ _ => .error .TypeError,
+            hasattr := fun _ _ => false }, ?_, rfl, rfl, ?_⟩
+  · intro k e h; cases h
+  · intro r kw e h
+    have : ∃ key, e = .typeError key := by
+      cases r with
+      | plain k =>
+        simp only [Factory.instantiate, Factory.bindArgs] at h
+        split at h
+        · simp [Except.map] at h; exact ⟨_, h.symm⟩
+        · split at h
+          · simp [Except.map] at h; exact ⟨_, h.symm⟩
+          · simp [Except.map] at h
+      | mixed ms b =>
+        simp only [Factory.instantiate, Factory.bindArgs] at h
+        split at h
+        · simp [Except.map] at h; exact ⟨_, h.symm⟩
+        · split at h
+          · simp [Except.map] at h; exact ⟨_, h.symm⟩
+          · simp [Except.map] at h
+    obtain ⟨key, rfl⟩ := this
+    rfl
 
 end Taurex.C15SrcProps
